@@ -43,9 +43,42 @@ def variants(actions, n):
     return out
 
 
+def sig_sys(trace, step, clause):
+    s = trace["steps"][step - 1] if step else None
+    return "C09|System|%s|%s" % (clause, "%s.%s" % (s["target"], s["a"]["op"]) if s else "init")
+
+
+def corrupt_sys(t):
+    # an edit of one block is recorded as having changed the other block as well
+    for s in t["steps"]:
+        if s["target"] == "d1" and s["out"] == "ok" and s["post"]["d1"]["list"]:
+            s["post"]["d2"]["text"] += " /*tampered*/"
+            return t
+    return None
+
+
+def nontrivial_sys(pre, s):
+    if s["out"] != "ok" or pre["sheettext"] != s["post"]["sheettext"]:
+        return json.dumps([[pre[c]["list"] for c in ("d1", "d2", "ml")], pre["s1"], pre["s2"], s["target"], s["a"]], sort_keys=True)
+    return None
+
+
+def system_walks(run, tier, seed):
+    """composition (spec/System.tla): nested objects of ONE sheet edited through the DOM; component contracts + frame + C09 clauses"""
+    q = tier == "quick"
+    return history.check(
+        "C09", tier, seed, run=run, machine="System", mc_cfg="System_%s.cfg" % tier, gen_cfg="System_gen_%s.cfg" % tier,
+        trace_module="SystemTrace", adapter="adapters.system_", sig=sig_sys, corrupt=corrupt_sys,
+        tour_cap=8000 if q else 60000, n_walks=200 if q else 3000, walk_len=20 if q else 40, nontrivial=nontrivial_sys,
+        variants=[{}, {"refetch": True}, {"asobj": True}], finish=False,
+        assumptions=["composition machine: skeleton '@media <ml> { <s1> { <d1> } } <s2> { <d2> }' is fixed; component alphabets are "
+                     "reduced versions of the DeclBlock / MediaList alphabets"])
+
+
 def main(tier, seed):
     q = tier == "quick"
     run = Run("C09", tier, seed)
+    system_walks(run, tier, seed)
     dev = tlc.run("SheetDOM", "SheetDOM_deviation.cfg", run.work + "/dev", workers=8)
     if "AlwaysValid" not in dev.violated:
         raise Machinery("algorithm layer with the historical placement does not violate AlwaysValid - invariant vacuous?")
